@@ -266,24 +266,34 @@ func PrunePathValues(paths []*configapi.PathValue, leaveTopDeletedPaths bool) []
 	})
 
 	prunedPaths := make([]*configapi.PathValue, 0, len(sortedPaths))
-	deletingPrefix := ""
+	// Top-most deleted paths whose textual prefix range contains the current path. Because the paths are sorted,
+	// each one is a textual prefix of the next; siblings such as /a/b-x or /a/bc sort inside the range of /a/b
+	// without being beneath it, so sub-tree membership is decided at path element boundaries.
+	var deleting []string
 	for _, pv := range sortedPaths {
-		// If this path is marked as deleted and we're already not deleting this subtree, start deleting
-		if pv.Deleted && (len(deletingPrefix) == 0 || !strings.HasPrefix(pv.Path, deletingPrefix)) {
-			deletingPrefix = pv.Path
-
-			// If we're asked to leave behind the top deleted node of a sub-tree, add it here
+		// Leave the ranges we have sorted past
+		for len(deleting) > 0 && !strings.HasPrefix(pv.Path, deleting[len(deleting)-1]) {
+			deleting = deleting[:len(deleting)-1]
+		}
+		inDeletedSubTree := false
+		for _, deletingPrefix := range deleting {
+			if utils.IsPathOrDescendant(pv.Path, deletingPrefix) {
+				inDeletedSubTree = true
+				break
+			}
+		}
+		if inDeletedSubTree {
+			continue
+		}
+		if pv.Deleted {
+			// Start deleting this sub-tree. If we're asked to leave behind the top deleted node, add it here
+			deleting = append(deleting, pv.Path)
 			if leaveTopDeletedPaths {
 				prunedPaths = append(prunedPaths, pv)
 			}
+			continue
 		}
-
-		// If we're not currently deleting or if the node is not part of the sub-tree, add it and cancel deletion
-		// since we have left the sub-tree.
-		if len(deletingPrefix) == 0 || !strings.HasPrefix(pv.Path, deletingPrefix) {
-			prunedPaths = append(prunedPaths, pv)
-			deletingPrefix = ""
-		}
+		prunedPaths = append(prunedPaths, pv)
 	}
 
 	return prunedPaths
